@@ -105,9 +105,14 @@ Definition version_like (n : str) : bool :=
    (Version(lit).is_prerelease or .is_postrelease; for the valid version texts in play: the text contains a letter) *)
 Definition is_letter (c : N) : bool := ((65 <=? c) && (c <=? 90)) || ((97 <=? c) && (c <=? 122)).
 Definition suffixed (s : str) : bool := existsb is_letter s.
+(* ... and '"lit" ~= name' (the compatible-release range is built from the environment value) and wildcard literals
+   ('"3.8.*" == name': no candidate version at all) on a version-valued variable.
+   Domain: operand texts in the spelling str(Version) produces (a leading "v", "1.0-1" for a post-release are the text layer). *)
+Definition ends_star (s : str) : bool := match rev s with 42 :: 46 :: _ => true | _ => false end.
 Definition rev_in (a : atom) : bool :=
   a_rev a && ((mop_eqb (a_op a) MIn || mop_eqb (a_op a) MNotIn)
-              || ((mop_eqb (a_op a) MLt || mop_eqb (a_op a) MGt) && version_like (a_name a) && suffixed (a_value a))).
+              || ((mop_eqb (a_op a) MLt || mop_eqb (a_op a) MGt) && version_like (a_name a) && suffixed (a_value a))
+              || (version_like (a_name a) && (mop_eqb (a_op a) MCompat || ends_star (a_value a)))).
 Definition rev_in_m (m : marker) : bool := match m with MAtom a => rev_in a | _ => false end.
 Definition pyver_pair (a b : str) : bool :=
   (str_eqb a (of_string "python_version") && str_eqb b (of_string "python_full_version"))
